@@ -50,6 +50,8 @@ FORMULAS = {
     # a flat chain of 220 comparisons (each one wraps the ones before it); a row number of 5000 digits
     'cmp_chain_220': '=' + '='.join(['1'] * 220), 'row_5000_digits': '=A' + '9' * 5000 + '+1',
     'crit_leading_zero': '=SUMIF(B1:B2,">007",C1:C2)', 'crit_huge': '=SUMIF(B1:B2,">1e999",C1:C2)',
+    # the same chain as an ARGUMENT of a call (the call is emitted as a member of its own: the cell's own expression stays short)
+    'cmp_chain_in_call': '=INDEX(B1:B2,' + '='.join(['1'] * 220) + ',1)',
     'col_beyond_xfd': '=XFE1+1', 'row_huge': '=A99999999+1', 'brackets8': '=((((((((B1))))))))+1',
 }
 
@@ -96,7 +98,7 @@ def overflow_in_file(path):
         raise RuntimeError(f'overflow placeholder found {n} times in {path}')
 
 
-DEEP = {'long_sum', 'cmp_chain_220', 'nested4', 'brackets8', 'row_5000_digits', 'exp_huge', 'self_ref', 'valid_nested3', 'valid_wholecol'}
+DEEP = {'long_sum', 'cmp_chain_220', 'cmp_chain_in_call', 'nested4', 'brackets8', 'row_5000_digits', 'exp_huge', 'self_ref', 'valid_nested3', 'valid_wholecol'}
 
 
 def probe(d, scratch):
@@ -118,7 +120,7 @@ def probe(d, scratch):
             raise
         o = repo.outcome_of_exception(e)
         if o['o'] == 'lib':
-            return first if first[0] == 'lib' or d['formula'] in ('long_sum', 'cmp_chain_220') else ('badclass', f'the whole workbook translates, the entry point A1 is rejected: {str(e)[:80]}')
+            return first if first[0] == 'lib' or d['formula'] in ('long_sum', 'cmp_chain_220', 'cmp_chain_in_call') else ('badclass', f'the whole workbook translates, the entry point A1 is rejected: {str(e)[:80]}')
         return o['o'], 'entry point A1: ' + o.get('t', '') + ':' + str(e)[:80]
     try:
         klass = repo.load_class(text)
